@@ -380,6 +380,28 @@ def run(case):
                 if not np.array_equal(field[0].values, u):
                     c.bad(sub + "/mutated", "save changed the field", "changed", "unchanged")
                 os.remove(fn)
+                # memory layouts of the field values (column-major table, strided view) x shapes of the force vector
+                for vlay, vals in (("F", np.asfortranarray(u)), ("strided", np.repeat(u, 2, axis=1)[:, ::2]), ("T-view", np.ascontiguousarray(u.T).T)):
+                    f2 = fem.FieldContainer([fem.Field(region, dim=mesh.dim)])
+                    f2[0].values = vals
+                    for flay, fo in (("1d", forces), ("column", forces.reshape(-1, 1)), ("table", forces.reshape(-1, mesh.dim)), ("table-F", np.asfortranarray(forces.reshape(-1, mesh.dim)))):
+                        sub2 = f"{sub}/values={vlay}/forces={flay}"
+                        c.trans += 1
+                        try:
+                            fem.tools.save(region, f2, forces=fo, filename=fn)
+                            m2 = meshio.read(fn)
+                        except Exception as ex:  # noqa
+                            if flay in ("1d", "column"):
+                                c.bad(sub2 + "/exception", "save / read raised", repr(ex)[:160], "a readable file")
+                            else:
+                                c.outcomes.add("save-force-table-rejected")
+                            continue
+                        finally:
+                            if os.path.exists(fn):
+                                os.remove(fn)
+                        c.nontrivial.append(sub2)
+                        c.same(sub2 + "/Displacements", "saved displacements (layout of the field values must not matter)", m2.point_data["Displacements"][:, : mesh.dim], u)
+                        c.same(sub2 + "/Reaction Force", "saved reaction forces: row p = components of point p of the force vector", m2.point_data["Reaction Force"][:, : mesh.dim], forces.reshape(-1, mesh.dim))
         # call histories: every sequence (depth 2, quick; 3, thorough) over {forces, forces+gradient, own point data, nothing} x
         # two meshes of different size: every file must hold exactly the arrays THAT call was given
         setups = {}
